@@ -138,7 +138,7 @@ Print Assumptions C05_example_values.
    END TO END for encrypted archives without compression (ComposeRepair.v; see the end of
    C02.v for the setting: encryption writer fed any pieces, cut of the WIRE, fail-safe
    decryptor in either mode, repair). *)
-From MLA Require Import EncLayer EncAuthTrunc EncWriter Run ComposeRdOnly ComposeRepair.
+From MLA Require Import EncLayer EncAuth EncAuthFs EncAuthTrunc EncWriter Run ComposeRdOnly ComposeRepair ComposeRepairMono.
 
 (* the undamaged wire, both modes: every file completely recovered *)
 Theorem C05_repair_encrypted_intact_complete :
@@ -196,11 +196,65 @@ Theorem C05_repair_encrypted_max :
          present (f_id f) bl (len (fs_output CHUNK TAG ks tagc unauth (takeN n (ew_out s))))).
 Proof. exact repair_encrypted_max. Qed.
 
-(* a longer cut never yields less, when the second run is in the unauthenticated mode (the
-   first in either mode).  For two AUTHENTICATED runs this is not a theorem of the abstract
-   model (see ComposeRepair.v: an accidental tag match inside a cut chunk); the general form
-   `repair_encrypted_monotone_gen` has the comparison of the delivered lengths as hypothesis. *)
-Theorem C05_repair_encrypted_monotone_partial :
+(* a longer cut never yields less — FULL statement, no assumption on the tag function.  For
+   every writer output (premises as in C05_repair_encrypted_max), all cuts n <= m of the wire
+   and every pair of decryption modes (u1 at n, u2 at m) other than (unauthenticated,
+   authenticated) — in particular BOTH AUTHENTICATED: both repairs return Ok and, for every
+   name, the content recovered at n is a prefix of the content recovered at m; OR the shorter
+   cut holds a forgery in the sense of C03/C04 (EncAuth.Forgery: some CTS-window of
+   takeN n wire splits as ct ++ tag with tag = tagc i ct for a counter i, and ct is NOT the
+   ciphertext the writer produced for chunk i of the plaintext).  The accident behind the
+   disjunct: a cut inside chunk k whose last TAG bytes happen to be the tag of the bytes before
+   them makes the authenticated loader accept a shortened chunk k; one more wire byte and it
+   refuses chunk k altogether (C05_example_auth_auth_forgery_disjunct_needed below exhibits
+   it with a weak tag function).  The excluded pair is not monotone for a plain reason: the
+   unauthenticated mode delivers the bytes of a cut chunk, the authenticated mode does not
+   (C05_example_unauth_then_auth_not_monotone). *)
+Theorem C05_repair_encrypted_monotone :
+  forall FNMAX CACHE : N, FNMAX < 2 ^ 64 -> 0 < CACHE ->
+  forall TS TC TA TE : N,
+    TS <> TC /\ TS <> TA /\ TS <> TE /\ TC <> TA /\ TC <> TE /\ TA <> TE ->
+  forall H : bytes -> bytes, (forall x, len (H x) = 32) ->
+  forall CHUNK TAG CIPHERBUF : N, 0 < CHUNK -> 0 < TAG ->
+  forall (ks : N -> N -> N) (tagc : N -> bytes -> bytes), (forall i c, len (tagc i c) = TAG) ->
+  forall (bl : list block) (trailer : bytes),
+    wf_blocks FNMAX H bl ->
+    In BEnd bl \/ trailer ++ junk CHUNK ks tagc (body TS TC TA TE bl ++ trailer) = [] ->
+  forall pieces : list bytes, concat pieces = body TS TC TA TE bl ++ trailer ->
+  forall (fuelw : nat) (s : ewstate),
+    ew_archive CHUNK CIPHERBUF ks tagc fuelw pieces = Ok s ->
+    len (ew_out s) / (CHUNK + TAG) + 2 <= 2 ^ 32 ->
+  forall (n m : N) (u1 u2 : bool) (fuel1 fuel2 : nat),
+    n <= m -> (u1 = true -> u2 = true) ->
+    (N.to_nat (len (body TS TC TA TE bl ++ trailer) + TAG) < fuel1)%nat ->
+    (N.to_nat (len (body TS TC TA TE bl ++ trailer) + TAG) < fuel2)%nat ->
+    exists es1 b1 es2 b2,
+      fs_open CHUNK TAG ks (Cursor (takeN n (ew_out s))) 0 = (es1, Ok b1) /\
+      fs_open CHUNK TAG ks (Cursor (takeN m (ew_out s))) 0 = (es2, Ok b2) /\
+    exists st1 un1 out1 obl1 st2 un2 out2 obl2,
+      repair FNMAX CACHE TS TC TA TE H (FsEnc CHUNK TAG ks tagc u1 (Cursor (takeN n (ew_out s))))
+             fuel1 es1 w_init = Ok (st1, un1, out1) /\
+      good_output FNMAX TS TC TA TE H out1 obl1 /\
+      repair FNMAX CACHE TS TC TA TE H (FsEnc CHUNK TAG ks tagc u2 (Cursor (takeN m (ew_out s))))
+             fuel2 es2 w_init = Ok (st2, un2, out2) /\
+      good_output FNMAX TS TC TA TE H out2 obl2 /\
+      ((forall name, prefix (content_of (files_of obl1) name) (content_of (files_of obl2) name)) \/
+       Forgery CHUNK TAG ks tagc (takeN n (ew_out s)) (body TS TC TA TE bl ++ trailer)).
+Proof. exact repair_encrypted_monotone_full. Qed.
+
+(* the layer fact behind it: on truncations of an unaltered encrypted stream the
+   authenticated output grows with the cut, or the shorter cut holds a forgery *)
+Theorem C05_auth_output_monotone_or_forgery :
+  forall CHUNK TAG : N, 0 < CHUNK -> 0 < TAG ->
+  forall (ks : N -> N -> N) (tagc : N -> bytes -> bytes), (forall i c, len (tagc i c) = TAG) ->
+  forall plain w1 w2 : bytes,
+    prefix w1 w2 -> prefix w2 (enc_format CHUNK ks tagc plain) ->
+    prefix (auth_out CHUNK TAG ks tagc w1) (auth_out CHUNK TAG ks tagc w2) \/
+    Forgery CHUNK TAG ks tagc w1 plain.
+Proof. exact fs_auth_cut_mono. Qed.
+
+(* second run unauthenticated (first in either mode): no disjunct at all *)
+Theorem C05_repair_encrypted_monotone_unauth :
   forall FNMAX CACHE : N, FNMAX < 2 ^ 64 -> 0 < CACHE ->
   forall TS TC TA TE : N,
     TS <> TC /\ TS <> TA /\ TS <> TE /\ TC <> TA /\ TC <> TE /\ TA <> TE ->
@@ -249,10 +303,118 @@ Proof.
   exists es, b, out, obl. auto.
 Qed.
 
+(* non-vacuity of C05_repair_encrypted_monotone: the same archive cut at 100 and at 140, BOTH
+   runs authenticated *)
+Example C05_example_encrypted_monotone_auth_auth :
+  exists es1 b1 es2 b2 st1 un1 out1 obl1 st2 un2 out2 obl2,
+    fs_open 32 4 toy_ks (Cursor (takeN 100 (ew_out C02.ex_ew))) 0 = (es1, Ok b1) /\
+    fs_open 32 4 toy_ks (Cursor (takeN 140 (ew_out C02.ex_ew))) 0 = (es2, Ok b2) /\
+    repair 48 4 0 1 254 255 ex_H (FsEnc 32 4 toy_ks (toy_tag 4) false (Cursor (takeN 100 (ew_out C02.ex_ew))))
+           300 es1 w_init = Ok (st1, un1, out1) /\
+    good_output 48 0 1 254 255 ex_H out1 obl1 /\
+    repair 48 4 0 1 254 255 ex_H (FsEnc 32 4 toy_ks (toy_tag 4) false (Cursor (takeN 140 (ew_out C02.ex_ew))))
+           300 es2 w_init = Ok (st2, un2, out2) /\
+    good_output 48 0 1 254 255 ex_H out2 obl2 /\
+    ((forall name, prefix (content_of (files_of obl1) name) (content_of (files_of obl2) name)) \/
+     Forgery 32 4 toy_ks (toy_tag 4) (takeN 100 (ew_out C02.ex_ew)) (body 0 1 254 255 ex_bl ++ ex_trailer)).
+Proof.
+  destruct (C05_repair_encrypted_monotone 48 4 ltac:(lia) ltac:(lia) 0 1 254 255
+              ltac:(repeat split; discriminate) ex_H ex_H_len 32 4 8 ltac:(lia) ltac:(lia)
+              toy_ks (toy_tag 4) (len_toy_tag 4) ex_bl ex_trailer C02_example_wf
+              (or_introl ex_bl_end) C02.ex_pieces C02.ex_pieces_ok 200%nat C02.ex_ew C02.ex_ew_ok
+              ltac:(vm_compute; discriminate) 100 140 false false 300%nat 300%nat ltac:(lia)
+              ltac:(discriminate) ltac:(vm_compute; lia) ltac:(vm_compute; lia))
+    as (es1 & b1 & es2 & b2 & Ho1 & Ho2 & st1 & un1 & out1 & obl1 & st2 & un2 & out2 & obl2 & R).
+  destruct R as (R1 & R2 & R3 & R4 & R5).
+  exists es1, b1, es2, b2, st1, un1, out1, obl1, st2, un2, out2, obl2.
+  split; [exact Ho1|]. split; [exact Ho2|]. split; [exact R1|]. split; [exact R2|]. split; [exact R3|]. split; [exact R4|]. exact R5.
+Qed.
+
+(* the Forgery disjunct cannot be dropped.  The same archive under a WEAK tag function (one
+   constant byte, 2): the wire cut at 40 ends, inside chunk 1, with a ciphertext byte equal to
+   2; the authenticated loader takes it for the tag of the 6 bytes before it and delivers
+   them — 3 content bytes of file "a".  Cut at 41 the window ends with another byte, chunk 1
+   is refused, nothing of "a" is recovered.  And the forgery is there. *)
+Definition ex_weak_tag (i : N) (c : bytes) : bytes := [2].
+Definition ex_weak_ew : ewstate :=
+  match ew_archive 32 8 toy_ks ex_weak_tag 200 C02.ex_pieces with Ok s => s | _ => ew_init end.
+Lemma ex_weak_ew_ok : ew_archive 32 8 toy_ks ex_weak_tag 200 C02.ex_pieces = Ok ex_weak_ew.
+Proof. vm_compute. reflexivity. Qed.
+
+Example C05_example_auth_auth_forgery_disjunct_needed :
+  (exists es1 b1 es2 b2 st1 un1 out1 obl1 st2 un2 out2 obl2,
+    fs_open 32 1 toy_ks (Cursor (takeN 40 (ew_out ex_weak_ew))) 0 = (es1, Ok b1) /\
+    fs_open 32 1 toy_ks (Cursor (takeN 41 (ew_out ex_weak_ew))) 0 = (es2, Ok b2) /\
+    repair 48 4 0 1 254 255 ex_H (FsEnc 32 1 toy_ks ex_weak_tag false (Cursor (takeN 40 (ew_out ex_weak_ew))))
+           300 es1 w_init = Ok (st1, un1, out1) /\
+    good_output 48 0 1 254 255 ex_H out1 obl1 /\
+    repair 48 4 0 1 254 255 ex_H (FsEnc 32 1 toy_ks ex_weak_tag false (Cursor (takeN 41 (ew_out ex_weak_ew))))
+           300 es2 w_init = Ok (st2, un2, out2) /\
+    good_output 48 0 1 254 255 ex_H out2 obl2 /\
+    content_of (files_of obl1) [97] = [1; 2; 3] /\ content_of (files_of obl2) [97] = []) /\
+  Forgery 32 1 toy_ks ex_weak_tag (takeN 40 (ew_out ex_weak_ew)) (body 0 1 254 255 ex_bl ++ ex_trailer).
+Proof.
+  split.
+  - pose proof (C05_repair_encrypted_max 48 4 ltac:(lia) ltac:(lia) 0 1 254 255
+              ltac:(repeat split; discriminate) ex_H ex_H_len 32 1 8 ltac:(lia) ltac:(lia)
+              toy_ks ex_weak_tag ltac:(reflexivity) ex_bl ex_trailer C02_example_wf
+              (or_introl ex_bl_end) C02.ex_pieces C02.ex_pieces_ok 200%nat ex_weak_ew ex_weak_ew_ok
+              ltac:(vm_compute; discriminate)) as Hmax.
+    destruct (Hmax 40 false 300%nat ltac:(vm_compute; lia))
+      as (es1 & b1 & Ho1 & st1 & un1 & out1 & obl1 & Hr1 & Hg1 & Hc1).
+    destruct (Hmax 41 false 300%nat ltac:(vm_compute; lia))
+      as (es2 & b2 & Ho2 & st2 & un2 & out2 & obl2 & Hr2 & Hg2 & Hc2).
+    exists es1, b1, es2, b2, st1, un1, out1, obl1, st2, un2, out2, obl2.
+    split; [exact Ho1|]. split; [exact Ho2|]. split; [exact Hr1|]. split; [exact Hg1|]. split; [exact Hr2|]. split; [exact Hg2|]. split.
+    + pose proof (Hc1 (mkF 7 [97] [1;2;3;4;5;6] true) ltac:(vm_compute; auto)) as E. cbn [f_name f_id] in E. rewrite E. vm_compute. reflexivity.
+    + pose proof (Hc2 (mkF 7 [97] [1;2;3;4;5;6] true) ltac:(vm_compute; auto)) as E. cbn [f_name f_id] in E. rewrite E. vm_compute. reflexivity.
+  - destruct (C05_auth_output_monotone_or_forgery 32 1 ltac:(lia) ltac:(lia) toy_ks ex_weak_tag ltac:(reflexivity)
+                (body 0 1 254 255 ex_bl ++ ex_trailer) (takeN 40 (ew_out ex_weak_ew)) (takeN 41 (ew_out ex_weak_ew)))
+      as [Hp|Hf]; [apply prefix_takeN_mono; lia | | | exact Hf].
+    + assert (E : ew_out ex_weak_ew = enc_format 32 toy_ks ex_weak_tag (body 0 1 254 255 ex_bl ++ ex_trailer))
+        by (vm_compute; reflexivity).
+      rewrite <- E. apply prefix_takeN.
+    + exfalso. apply prefix_len in Hp. vm_compute in Hp. apply Hp. reflexivity.
+Qed.
+
+(* the excluded pair of modes: unauthenticated at n, authenticated at m = n = 46 (a cut inside
+   chunk 1): the unauthenticated run recovers all 6 bytes of "a", the authenticated run none *)
+Example C05_example_unauth_then_auth_not_monotone :
+  exists es b st1 un1 out1 obl1 st2 un2 out2 obl2,
+    fs_open 32 4 toy_ks (Cursor (takeN 46 (ew_out C02.ex_ew))) 0 = (es, Ok b) /\
+    repair 48 4 0 1 254 255 ex_H (FsEnc 32 4 toy_ks (toy_tag 4) true (Cursor (takeN 46 (ew_out C02.ex_ew))))
+           300 es w_init = Ok (st1, un1, out1) /\
+    good_output 48 0 1 254 255 ex_H out1 obl1 /\
+    repair 48 4 0 1 254 255 ex_H (FsEnc 32 4 toy_ks (toy_tag 4) false (Cursor (takeN 46 (ew_out C02.ex_ew))))
+           300 es w_init = Ok (st2, un2, out2) /\
+    good_output 48 0 1 254 255 ex_H out2 obl2 /\
+    content_of (files_of obl1) [97] = [1; 2; 3; 4; 5; 6] /\ content_of (files_of obl2) [97] = [].
+Proof.
+  pose proof (C05_repair_encrypted_max 48 4 ltac:(lia) ltac:(lia) 0 1 254 255
+              ltac:(repeat split; discriminate) ex_H ex_H_len 32 4 8 ltac:(lia) ltac:(lia)
+              toy_ks (toy_tag 4) (len_toy_tag 4) ex_bl ex_trailer C02_example_wf
+              (or_introl ex_bl_end) C02.ex_pieces C02.ex_pieces_ok 200%nat C02.ex_ew C02.ex_ew_ok
+              ltac:(vm_compute; discriminate)) as Hmax.
+  destruct (Hmax 46 true 300%nat ltac:(vm_compute; lia))
+    as (es1 & b1 & Ho1 & st1 & un1 & out1 & obl1 & Hr1 & Hg1 & Hc1).
+  destruct (Hmax 46 false 300%nat ltac:(vm_compute; lia))
+    as (es2 & b2 & Ho2 & st2 & un2 & out2 & obl2 & Hr2 & Hg2 & Hc2).
+  rewrite Ho1 in Ho2. pose proof (f_equal fst Ho2) as Ee. cbn [fst] in Ee. subst es2. clear Ho2.
+  exists es1, b1, st1, un1, out1, obl1, st2, un2, out2, obl2.
+  split; [exact Ho1|]. split; [exact Hr1|]. split; [exact Hg1|]. split; [exact Hr2|]. split; [exact Hg2|]. split.
+  - pose proof (Hc1 (mkF 7 [97] [1;2;3;4;5;6] true) ltac:(vm_compute; auto)) as E. cbn [f_name f_id] in E. rewrite E. vm_compute. reflexivity.
+  - pose proof (Hc2 (mkF 7 [97] [1;2;3;4;5;6] true) ltac:(vm_compute; auto)) as E. cbn [f_name f_id] in E. rewrite E. vm_compute. reflexivity.
+Qed.
+
 Print Assumptions C05_repair_encrypted_intact_complete.
 Print Assumptions C05_repair_encrypted_max.
-Print Assumptions C05_repair_encrypted_monotone_partial.
+Print Assumptions C05_repair_encrypted_monotone.
+Print Assumptions C05_auth_output_monotone_or_forgery.
+Print Assumptions C05_repair_encrypted_monotone_unauth.
 Print Assumptions C05_example_encrypted_intact.
+Print Assumptions C05_example_encrypted_monotone_auth_auth.
+Print Assumptions C05_example_auth_auth_forgery_disjunct_needed.
+Print Assumptions C05_example_unauth_then_auth_not_monotone.
 (* ====================================================================================
    Compressed archives: the fail-safe decompression reader (model theories/CompFailSafe.v of
    CompressionLayerFailSafeReader; brotli's streaming decoder enters as an abstract step
